@@ -1,0 +1,21 @@
+//go:build !verif
+
+package server
+
+import (
+	"net"
+	"time"
+)
+
+// Simulation hooks. Without the "verif" build tag every hook is an inlinable
+// no-op and the server behaves exactly as shipped.
+
+func verifNewLock(opts *Options) rwlocker { return nil }
+
+func verifWrapListener(s *Server, ln net.Listener) net.Listener { return ln }
+
+func verifDialRESP(address string, timeout time.Duration) (net.Conn, error, bool) {
+	return nil, nil, false
+}
+
+func verifPoint(s *Server, name string) {}
